@@ -242,19 +242,9 @@ func lookupLit(t *largeHuffCodeTable, b uint64) (syms []uint32, bitCount uint32,
 	return syms, bitCount, true
 }
 
-// boundedParseHeader writes the dynamic block header for the given code lengths and runs the real parser on it, on
-// decoder state whose tables hold zeroes (prev == nil) or the tables an earlier block (prev) left.
-func boundedParseHeader(litLens, distLens []uint8, mode int, prev *inflate, mustAccept bool) (*inflate, string) {
-	// modes 1..3: code length code = 4 bits for each of the symbols 0..15 (complete), no repeat codes;
-	// modes 7..9: the same multi-symbol modes with the lengths run-length coded (symbols 16, 17, 18; runs are taken
-	// over the concatenation of both alphabets, so they cross from the literal/length to the distance lengths)
-	rle := mode > 6
-	mode = (mode-1)%3 + 1
-	w := &bitsW{}
-	final := uint64(0)
-	if mode > 0 {
-		final = 1
-	}
+// boundedWriteHeader appends a dynamic block header (BFINAL, BTYPE, counts, code length code, code lengths) to w; with
+// rle the lengths are run-length coded with the symbols 16, 17 and 18 over the concatenation of both alphabets.
+func boundedWriteHeader(w *bitsW, final uint64, litLens, distLens []uint8, rle bool) {
 	w.put(final, 1)
 	w.put(2, 2)
 	w.put(uint64(len(litLens)-257), 5)
@@ -330,6 +320,22 @@ func boundedParseHeader(litLens, distLens []uint8, mode int, prev *inflate, must
 			}
 		}
 	}
+}
+
+// boundedParseHeader writes the dynamic block header for the given code lengths and runs the real parser on it, on
+// decoder state whose tables hold zeroes (prev == nil) or the tables an earlier block (prev) left.
+func boundedParseHeader(litLens, distLens []uint8, mode int, prev *inflate, mustAccept bool) (*inflate, string) {
+	// modes 1..3: code length code = 4 bits for each of the symbols 0..15 (complete), no repeat codes;
+	// modes 7..9: the same multi-symbol modes with the lengths run-length coded (symbols 16, 17, 18; runs are taken
+	// over the concatenation of both alphabets, so they cross from the literal/length to the distance lengths)
+	rle := mode > 6
+	mode = (mode-1)%3 + 1
+	w := &bitsW{}
+	final := uint64(0)
+	if mode > 0 {
+		final = 1
+	}
+	boundedWriteHeader(w, final, litLens, distLens, rle)
 	hdr := w.bytes()
 	pad := 64
 	if mode == 0 || mode == 3 {
